@@ -1,10 +1,446 @@
-//! implementation-side drivers of work package "conc" (see docs/AGENT_GUIDE.md)
+//! implementation-side driver "conc": run real tasks against a real client `Session` under an
+//! explicit schedule. Every harness task runs inside a task-local scope carrying its id; the
+//! scheduling-point controller installed in the library parks a scoped task at each named point
+//! until the schedule grants it one step. Unscoped (library-internal) tasks are never parked.
+//! Case format and output: see extract/drv_conc.ml (the model side prints the same string).
 #![allow(unused_imports, dead_code)]
+use crate::transport::{ChanReader, REv, RecWriter, WEv, bursts};
 use crate::util::{hex, unhex};
+use anytls_rs::padding::PaddingFactory;
+use anytls_rs::protocol::{Command, Frame};
+use anytls_rs::session::Session;
+use anytls_rs::session::session::verif_sched;
+use anytls_rs::util::AnyTlsError;
+use bytes::Bytes;
+use std::collections::HashMap;
+use std::sync::{Arc, Mutex};
+use std::time::Duration;
+use tokio::sync::oneshot;
+
+tokio::task_local! { static TASK_ID: usize; }
+
+#[derive(Clone, Debug)]
+enum Call {
+    Write(u8, u32, Vec<u8>),
+    Data(Vec<u8>),
+    Open,
+    Await,
+    Timeout,
+    Read,
+    Close,
+    Buf(bool),
+    Fail,
+    FeedSynAck(usize, bool),
+    FeedPush(usize),
+    FeedFin(usize),
+    FeedAlert,
+    FeedEof,
+    FeedErr,
+}
+
+fn parse_call(tok: &str) -> Call {
+    let p: Vec<&str> = tok.split(':').collect();
+    match p.as_slice() {
+        ["W", c, sid, d] => Call::Write(c.parse().unwrap(), sid.parse().unwrap(), unhex(d)),
+        ["D", d] => Call::Data(unhex(d)),
+        ["O"] => Call::Open,
+        ["A"] => Call::Await,
+        ["T"] => Call::Timeout,
+        ["R"] => Call::Read,
+        ["X"] => Call::Close,
+        ["B0"] => Call::Buf(false),
+        ["B1"] => Call::Buf(true),
+        ["FAIL"] => Call::Fail,
+        ["F", "sa", o, ok] => Call::FeedSynAck(o.parse().unwrap(), *ok == "1"),
+        ["F", "psh", o] => Call::FeedPush(o.parse().unwrap()),
+        ["F", "fin", o] => Call::FeedFin(o.parse().unwrap()),
+        ["F", "alert"] => Call::FeedAlert,
+        ["F", "eof"] => Call::FeedEof,
+        ["F", "err"] => Call::FeedErr,
+        _ => panic!("bad call {}", tok),
+    }
+}
+
+#[derive(Default)]
+struct Shared {
+    parked: HashMap<usize, (String, oneshot::Sender<()>)>,
+    results: HashMap<usize, Vec<&'static str>>,
+    done: HashMap<usize, bool>,
+    sids: HashMap<usize, u32>,
+    /// tasks that were granted a step at a lock-acquiring point and have not reached a new point yet
+    last_point: HashMap<usize, String>,
+    /// set by a task whose call was not ready (it re-parked at h.call without progress)
+    blocked: HashMap<usize, bool>,
+}
+
+type Sh = Arc<Mutex<Shared>>;
+
+async fn park(sh: &Sh, name: &str) {
+    let id = match TASK_ID.try_with(|i| *i) {
+        Ok(i) => i,
+        Err(_) => return,
+    };
+    let (tx, rx) = oneshot::channel();
+    {
+        let mut g = sh.lock().unwrap();
+        g.parked.insert(id, (name.to_string(), tx));
+        g.last_point.insert(id, name.to_string());
+    }
+    let _ = rx.await;
+}
+
+fn err_class(e: &AnyTlsError) -> &'static str {
+    match e {
+        AnyTlsError::SessionClosed => "closed",
+        AnyTlsError::Io(_) => "io",
+        _ => "other",
+    }
+}
+
+fn frame_bytes(cmd: u8, sid: u32, data: &[u8]) -> Vec<u8> {
+    let mut v = vec![cmd];
+    v.extend_from_slice(&sid.to_be_bytes());
+    v.extend_from_slice(&(data.len() as u16).to_be_bytes());
+    v.extend_from_slice(data);
+    v
+}
+
+/// scheme in which line k (1..=199) is the fixed size 1000+k, so that the first write of a padded
+/// burst reveals which line shaped it
+fn index_scheme() -> Arc<PaddingFactory> {
+    let mut s = String::from("stop=200\n");
+    for k in 0..200 {
+        s.push_str(&format!("{}={}-{}\n", k, 1000 + k, 1000 + k));
+    }
+    Arc::new(PaddingFactory::new(s.as_bytes()).unwrap())
+}
+
+pub fn conc(args: &[&str]) -> String {
+    let mode = args[0];
+    let mut groups: Vec<Vec<Call>> = Vec::new();
+    let mut sched: Vec<usize> = Vec::new();
+    let mut in_sched = false;
+    for tok in &args[1..] {
+        if in_sched {
+            sched.push(tok.parse().unwrap());
+        } else if *tok == "sched" {
+            in_sched = true;
+        } else if *tok == "|" {
+            groups.push(Vec::new());
+        } else if *tok != "-" {
+            groups.last_mut().unwrap().push(parse_call(tok));
+        }
+    }
+    let rt = tokio::runtime::Builder::new_current_thread()
+        .enable_all()
+        .start_paused(true)
+        .build()
+        .unwrap();
+    let out = rt.block_on(async move { run_case(mode == "start", groups, sched).await });
+    verif_sched::set_controller(None);
+    out
+}
+
+async fn settle() {
+    tokio::time::sleep(Duration::from_millis(1)).await;
+}
+
+async fn run_case(start: bool, groups: Vec<Vec<Call>>, sched: Vec<usize>) -> String {
+    let sh: Sh = Arc::new(Mutex::new(Shared::default()));
+    let (reader, feed_tx) = ChanReader::new();
+    let (writer, wh) = RecWriter::new(None);
+    let session = Arc::new(Session::new_client(reader, writer, index_scheme(), None));
+
+    let mut handles = Vec::new();
+    if start {
+        // the real start-up: Settings buffered, recv_loop / process_stream_data spawned by the library
+        session.clone().start_client().await.unwrap();
+    }
+    {
+        let sh2 = sh.clone();
+        verif_sched::set_controller(Some(Arc::new(move |name: &'static str| {
+            let sh3 = sh2.clone();
+            Box::pin(async move { park(&sh3, name).await })
+        })));
+    }
+    let recv_done = Arc::new(Mutex::new(false));
+    if !start {
+        let s = session.clone();
+        let rd = recv_done.clone();
+        handles.push(tokio::spawn(TASK_ID.scope(0, async move {
+            let _ = s.recv_loop().await;
+            *rd.lock().unwrap() = true;
+        })));
+    }
+    let ntasks = groups.len();
+    for (i, prog) in groups.into_iter().enumerate() {
+        if i == 0 {
+            continue;
+        }
+        let s = session.clone();
+        let sh2 = sh.clone();
+        let wh2 = wh.clone();
+        let ftx = feed_tx.clone();
+        handles.push(tokio::spawn(TASK_ID.scope(i, async move {
+            let mut synack_rx: Option<oneshot::Receiver<anytls_rs::util::Result<()>>> = None;
+            let mut stream: Option<Arc<anytls_rs::session::Stream>> = None;
+            let mut verdict_taken: Option<&'static str> = None;
+            for call in prog {
+                let res: &'static str = loop {
+                    park(&sh2, "h.call").await;
+                    match &call {
+                        Call::Write(c, sid, d) => {
+                            let f = Frame::with_data(Command::from(*c), *sid, Bytes::from(d.clone()));
+                            break match s.write_frame(f).await {
+                                Ok(()) => "ok",
+                                Err(e) => err_class(&e),
+                            };
+                        }
+                        Call::Data(d) => {
+                            let sid = match &stream {
+                                Some(st) => st.id(),
+                                None => break "nostream",
+                            };
+                            break match s.write_data_frame(sid, Bytes::from(d.clone())).await {
+                                Ok(()) => "ok",
+                                Err(e) => err_class(&e),
+                            };
+                        }
+                        Call::Open => {
+                            break match s.open_stream().await {
+                                Ok((st, rx)) => {
+                                    sh2.lock().unwrap().sids.insert(i, st.id());
+                                    stream = Some(st);
+                                    synack_rx = Some(rx);
+                                    verdict_taken = None;
+                                    "ok"
+                                }
+                                Err(e) => {
+                                    // the id was allocated and registered before the SYN failed
+                                    err_class(&e)
+                                }
+                            };
+                        }
+                        Call::Await | Call::Timeout => {
+                            if let Some(v) = verdict_taken {
+                                break v;
+                            }
+                            let r = match synack_rx.as_mut() {
+                                None => None,
+                                Some(rx) => match rx.try_recv() {
+                                    Ok(Ok(())) => Some("ok"),
+                                    Ok(Err(e)) => {
+                                        let m = e.to_string();
+                                        if m.contains("Session closed") {
+                                            Some("closed")
+                                        } else {
+                                            Some("erropen")
+                                        }
+                                    }
+                                    Err(oneshot::error::TryRecvError::Closed) => Some("dropped"),
+                                    Err(oneshot::error::TryRecvError::Empty) => None,
+                                },
+                            };
+                            match r {
+                                Some(v) => {
+                                    verdict_taken = Some(v);
+                                    break v;
+                                }
+                                None => {
+                                    if matches!(call, Call::Timeout) {
+                                        synack_rx = None; // the waiter gives up: receiver dropped
+                                        verdict_taken = Some("timeout");
+                                        break "timeout";
+                                    }
+                                    sh2.lock().unwrap().blocked.insert(i, true);
+                                    continue; // not ready: stay parked at h.call
+                                }
+                            }
+                        }
+                        Call::Read => {
+                            let st = match &stream {
+                                Some(st) => st.clone(),
+                                None => break "nostream",
+                            };
+                            let mut buf = vec![0u8; 4096];
+                            let fut = async {
+                                let mut g = st.reader().lock().await;
+                                g.read(&mut buf).await
+                            };
+                            tokio::pin!(fut);
+                            let polled = futures_poll_once(fut.as_mut()).await;
+                            match polled {
+                                Some(Ok(0)) => break "eof",
+                                Some(Ok(_)) => break "data",
+                                Some(Err(_)) => break "readerr",
+                                None => {
+                                    sh2.lock().unwrap().blocked.insert(i, true);
+                                    continue;
+                                }
+                            }
+                        }
+                        Call::Close => {
+                            let _ = s.close().await;
+                            break "ok";
+                        }
+                        Call::Buf(b) => {
+                            if !*b {
+                                s.disable_buffering();
+                            }
+                            break "ok";
+                        }
+                        Call::Fail => {
+                            wh2.set_fail_at(Some(wh2.total()));
+                            break "ok";
+                        }
+                        Call::FeedSynAck(o, ok) => {
+                            let sid = sh2.lock().unwrap().sids.get(o).copied().unwrap_or(0xFFFF_0000 + *o as u32);
+                            let data: &[u8] = if *ok { b"" } else { b"refused" };
+                            let _ = ftx.send(REv::Data(frame_bytes(7, sid, data)));
+                            break "ok";
+                        }
+                        Call::FeedPush(o) => {
+                            let sid = sh2.lock().unwrap().sids.get(o).copied().unwrap_or(0xFFFF_0000 + *o as u32);
+                            let _ = ftx.send(REv::Data(frame_bytes(2, sid, b"x")));
+                            break "ok";
+                        }
+                        Call::FeedFin(o) => {
+                            let sid = sh2.lock().unwrap().sids.get(o).copied().unwrap_or(0xFFFF_0000 + *o as u32);
+                            let _ = ftx.send(REv::Data(frame_bytes(3, sid, b"")));
+                            break "ok";
+                        }
+                        Call::FeedAlert => {
+                            let _ = ftx.send(REv::Data(frame_bytes(5, 0, b"bye")));
+                            break "ok";
+                        }
+                        Call::FeedEof => {
+                            let _ = ftx.send(REv::Eof);
+                            break "ok";
+                        }
+                        Call::FeedErr => {
+                            let _ = ftx.send(REv::Err(std::io::ErrorKind::ConnectionReset, "injected read error"));
+                            break "ok";
+                        }
+                    }
+                };
+                sh2.lock().unwrap().results.entry(i).or_default().push(res);
+            }
+            sh2.lock().unwrap().done.insert(i, true);
+        })));
+    }
+    settle().await;
+
+    let mut out = String::new();
+    for t in sched {
+        let grant = sh.lock().unwrap().parked.remove(&t);
+        match grant {
+            Some((name, tx)) => {
+                {
+                    let mut g = sh.lock().unwrap();
+                    // remember a grant at a lock-acquiring point: if no new point is reached the task is queued
+                    if name == "wf.before_writer" || name == "close.before_writer" {
+                        g.last_point.insert(t, "queued".into());
+                    } else {
+                        g.last_point.insert(t, "running".into());
+                    }
+                }
+                let _ = tx.send(());
+                settle().await;
+                if sh.lock().unwrap().blocked.remove(&t) == Some(true) {
+                    out.push_str(&format!("skip{} ", t));
+                }
+            }
+            None => {
+                out.push_str(&format!("skip{} ", t));
+            }
+        }
+    }
+    // ---- observations
+    let log = wh.log();
+    out.push_str("W ");
+    for b in bursts(&log) {
+        if b.is_empty() {
+            continue;
+        }
+        let idx = if b[0].len() >= 1000 && b[0].len() < 1200 { b[0].len() - 1000 } else { 0 };
+        let all: Vec<u8> = b.concat();
+        let mut toks = Vec::new();
+        let mut p = 0usize;
+        while p + 7 <= all.len() {
+            let c = all[p];
+            let sid = u32::from_be_bytes([all[p + 1], all[p + 2], all[p + 3], all[p + 4]]);
+            let ln = u16::from_be_bytes([all[p + 5], all[p + 6]]) as usize;
+            if p + 7 + ln > all.len() {
+                toks.push("TRUNCATED".to_string());
+                break;
+            }
+            let d = &all[p + 7..p + 7 + ln];
+            p += 7 + ln;
+            if c == 0 && sid == 0 && d.iter().all(|x| *x == 0) {
+                continue; // padding
+            }
+            if c == 4 {
+                toks.push("SETTINGS".to_string());
+            } else {
+                toks.push(format!("{}.{}.{}", if c <= 10 { c } else { 0 }, sid, hex(d)));
+            }
+        }
+        if p != all.len() && !toks.iter().any(|t| t == "TRUNCATED") {
+            toks.push("STRAY".to_string());
+        }
+        out.push_str(&format!("{}:{} ", idx, toks.join(",")));
+    }
+    out.push_str(&format!("| closed={} shut={} |", session.is_closed(), wh.is_shutdown()));
+    let g = sh.lock().unwrap();
+    for t in 0..ntasks {
+        let res = match g.results.get(&t) {
+            Some(v) if !v.is_empty() => v.join(","),
+            _ => "-".to_string(),
+        };
+        let pc = if t == 0 {
+            if start {
+                "-".to_string()
+            } else if *recv_done.lock().unwrap() {
+                "done".to_string()
+            } else if let Some((n, _)) = g.parked.get(&t) {
+                n.clone()
+            } else if g.last_point.get(&t).map(|s| s.as_str()) == Some("queued") {
+                "queued".to_string()
+            } else {
+                "recv".to_string()
+            }
+        } else if g.done.get(&t).copied().unwrap_or(false) {
+            "done".to_string()
+        } else if let Some((n, _)) = g.parked.get(&t) {
+            n.clone()
+        } else if g.last_point.get(&t).map(|s| s.as_str()) == Some("queued") {
+            "queued".to_string()
+        } else {
+            "lost".to_string()
+        };
+        out.push_str(&format!(" t{}:{}:{}", t, pc, res));
+    }
+    drop(g);
+    for h in handles {
+        h.abort();
+    }
+    out
+}
+
+/// poll a future exactly once
+async fn futures_poll_once<F: std::future::Future + Unpin>(mut f: F) -> Option<F::Output> {
+    use std::pin::Pin;
+    use std::task::Poll;
+    std::future::poll_fn(move |cx| match Pin::new(&mut f).poll(cx) {
+        Poll::Ready(v) => Poll::Ready(Some(v)),
+        Poll::Pending => Poll::Ready(None),
+    })
+    .await
+}
 
 pub fn dispatch(drv: &str, args: &[&str]) -> Option<String> {
-    let _ = args;
     match drv {
+        "conc" => Some(conc(args)),
         _ => None,
     }
 }
